@@ -145,6 +145,13 @@ func (p *Program) findPackage(name string, from *types.Package) *types.Package {
 		if from.Name() == name {
 			return from
 		}
+		if path, ok := p.aliases[from.Path()][name]; ok {
+			for _, im := range from.Imports() {
+				if im.Path() == path {
+					return im
+				}
+			}
+		}
 		for _, im := range from.Imports() {
 			if im.Name() == name {
 				return im
